@@ -99,6 +99,11 @@ def evaluate(case: Dict[str, Any]) -> Outcome:
             ref = reference["assets"][asset]
             txs = {t.row: t for t in model.make_txs(rows_model[asset])}
             in_out, tax = report.in_out_name(asset), report.tax_name(asset)
+            if report.sheet_names.count(in_out) != 1 or report.sheet_names.count(tax) != 1:
+                # a hyperlink names a sheet: with the asset's sheet missing, or two sheets of that name, no link can lead to "the
+                # row of the same transaction in that asset's In-Out sheet"
+                out.fail("asset_sheet_not_addressable", f"asset {asset}: the report must hold exactly one sheet '{in_out}' and one sheet '{tax}' for links to resolve; its sheets are {report.sheet_names}")
+                return out
             ranges = table_ranges(report, in_out)
             in_out_rows = report.sheets[in_out]
             _, detail = report.table_rows(tax, "Gain / Loss Detail", 0)
